@@ -27,6 +27,35 @@ def check(run):
         else:
             plain.append(c)
 
+    # --stop-on-failure while another worker is INSIDE a setup: a test of one suite fails while the setup of another suite (hook,
+    # suite fixture) or of another test (setup_test, test fixture) is running on a second worker, under many schedules: what that
+    # setup completed must still be torn down, and nothing of it may be lost
+    nohooks = {"setup_suite": None, "teardown_suite": None, "setup_test": None, "teardown_test": None}
+    for k in range(24 if run.tier == "quick" else 300):
+        variant = k % 3
+        fx = [{"name": "f5", "scope": "suite" if variant == 1 else "test", "params": [], "per_thread": False, "generator": True,
+               "setup": [["mark", 1], ["mark", 2]], "teardown": [["mark", 3]]}] if variant in (1, 2) else []
+        sa = {"name": "s6", "disabled": False, "rank": 0, "hooks": dict(nohooks), "injected": [],
+              "tests": [{"name": "t7", "disabled": False, "rank": 0, "deps": [], "args": [], "params": {},
+                         "body": [["mark", 4], ["check", False, 5], ["mark", 6]]}], "subs": []}
+        hb = dict(nohooks)
+        if variant == 0:
+            hb["setup_suite"] = {"args": [], "script": [["mark", 7], ["mark", 8], ["mark", 9]]}
+            hb["teardown_suite"] = [["mark", 10]]
+        if variant == 2:
+            hb["setup_test"] = [["mark", 7], ["mark", 8]]
+            hb["teardown_test"] = [["mark", 10]]
+        sb = {"name": "s8", "disabled": False, "rank": 1, "hooks": hb, "injected": [],
+              "tests": [{"name": "t9", "disabled": False, "rank": 0, "deps": [], "args": (["f5"] if fx else []), "params": {},
+                         "body": [["mark", 11]] + ([["use", "f5"]] if fx else [])},
+                        {"name": "t10", "disabled": False, "rank": 1, "deps": [], "args": [], "params": {}, "body": [["mark", 12]]}],
+              "subs": []}
+        c = {"id": "sof%d" % k, "project": {"fixtures": fx, "suites": [sa, sb]}, "sched": projgen.gen_sched(run.rng),
+             "options": {"nb_threads": run.rng.choice([2, 2, 3]), "stop_on_failure": True, "force_disabled": False},
+             "file_backends": ["json"]}
+        plain.append(c)
+        run.count("stop_on_failure_during_a_setup")
+
     def nontrivial(c, r):
         st = [s for _, s in runoracle.report_tests(r["report"])] if r.get("report") else []
         return "skipped" in st
